@@ -52,8 +52,11 @@ ASSUMPTIONS = [
     "tolerances: cost / goodness of fit at common parameter points before fitting LINALG (1e-9 relative to |chi2| + |ln det V| + |2N ln s| + 1); after fitting OPTIM in units of "
     "the reference sigma: |dp| <= 1e-2 sigma (iminuit) / 5e-2 sigma (scipy), errors / covariance / correlation / asymmetric errors / error band within 2e-2 relative "
     "(the HESSE accuracy at cond <= 1e6), chi2 and cost within 1e-3 (iminuit) / 5e-3 (scipy); fixed parameters exactly",
-    "parameter uncertainties of a problem with a limited parameter closer than 3 sigma_ref to one of its bounds are not compared (the reported sigma of a parameter resting on "
-    "a limit is not defined; values, chi2 and cost are compared)",
+    "parameter uncertainties are compared only where they are defined at the 2e-2 level: not if a limited parameter is closer than 3 sigma_ref to one of its bounds (the reported "
+    "sigma of a parameter resting on a limit is not defined) and not if the base fit's sqrt(diag(cov)) differs from the Gauss-Newton sigma_ref by more than 15 % (strongly non-parabolic "
+    "cost: the second derivative changes by per cents over the 1e-2 sigma the optimum is allowed to move); values, chi2 and cost are compared in all cases (counted in notes)",
+    "chi2 = cost - ln det V is not the minimised function when V depends on the parameters (x / model-relative sources): its tolerance is the cost tolerance plus the allowed parameter "
+    "shift times the first-order sensitivity sum_i |sigma_i d(ln det V)/dp_i| from the reference (zero for parameter-independent V)",
     "unit-carrying parameters per family (model output is homogeneous of degree 1 in them; verified numerically at start-up): poly: all; trig: a, b, c; expbasis: a, b; "
     "exponential / powerlaw: A; gausspeak / lorentz / sinusoid: A, c; logistic: L",
     "scipy asymmetric errors (generic profile root finding, ~2 s each) are sampled at 4 % (quick) / 30 % (thorough) of the scipy cases; MINOS always",
@@ -212,7 +215,32 @@ def yardstick(refs, names, constraints, fixed, pdict):
         return {"ok": False, "why": "normal-matrix-not-pd"}
     C = np.linalg.inv(H)
     sig = {n: float(np.sqrt(C[i, i])) for i, n in enumerate(free)}
-    return {"ok": True, "cond": cond, "sigma": sig, "condV": condV}
+    # nonlinearity of the model over one sigma: |f(p + sigma_i e_i) - f(p) - sigma_i df/dp_i| relative to |sigma_i df/dp_i| (in the metric of V)
+    nl = 0.0
+    for r in refs:
+        p = np.array([pdict[n] for n in r.model.pnames], dtype=float)
+        if r.model.linear:
+            continue
+        V = r.total_cov(p)
+        L = np.linalg.cholesky(V)
+        f0 = r.model_values(p)
+        J = r.model.dfdp(r.x, p)
+        for j, pn in enumerate(r.model.pnames):
+            if pn not in free:
+                continue
+            lin = np.linalg.solve(L, sig[pn] * J[j])
+            nlin = float(np.sqrt(lin @ lin))
+            for sign in (1.0, -1.0):
+                q = p.copy()
+                q[j] += sign * sig[pn]
+                with np.errstate(all="ignore"):
+                    d = r.model_values(q) - f0 - sign * sig[pn] * J[j]
+                if not np.all(np.isfinite(d)):
+                    nl = np.inf
+                    continue
+                w = np.linalg.solve(L, d)
+                nl = max(nl, float(np.sqrt(w @ w)) / max(nlin, 1e-300))
+    return {"ok": True, "cond": cond, "sigma": sig, "condV": condV, "nonlinearity": nl}
 
 
 # ------------------------------------------------------------------ generation
@@ -283,8 +311,7 @@ def gen_problem(rng, tier, kind, minimizer, subset, want):
             fk = "matrix" if (want.get("cmatrix") and i == 0 and len(names) >= 2) else None
             problem["constraints"].append(gen.gen_constraint(rng, names, tvals, force_kind=fk))
     if has["fixed"]:
-        k = int(rng.integers(1, max(2, len(names) - 1)))
-        k = min(k, len(names) - 1)
+        k = int(rng.integers(1, len(names)))  # 1 .. N_p - 1 (never all)
         for i in sorted(int(i) for i in rng.choice(len(names), size=k, replace=False)):
             problem["fixed"][names[i]] = None  # value filled in below (needs sigma)
     refs = make_refs(problem)
@@ -621,69 +648,117 @@ def read_bands(b, band_x, cov):
     return bands
 
 
-# ------------------------------------------------------------------ classifier of known mechanisms
-def fd_cov(b, scale):
-    """covariance matrix from central second differences of kafe2's own cost function with steps proportional to `scale`
-    (the yardstick sigma of every parameter) — what an error matrix that does not depend on the units looks like"""
+# ------------------------------------------------------------------ classifiers of known mechanisms (predicates over the witness)
+def fd_cov(b, cov_guess):
+    """Covariance matrix from central second differences of kafe2's *own* cost function of the fit `b`, with steps of 0.1
+    conditional sigma of every parameter (taken from `cov_guess`) — what an error matrix that does not depend on the units of
+    the parameters looks like.  Used only to decide *why* an uncertainty comparison failed."""
     fitter = b.fit._fitter
     names = b.names
     fixed = set(fitter.fixed_parameters)
     free = [i for i, n in enumerate(names) if n not in fixed]
     p0 = np.array(b.fit.parameter_values, dtype=float)
     f = fitter._fcn_wrapper
-    h = 0.05 * np.array(scale, dtype=float)
+    Ci = np.linalg.inv(np.asarray(cov_guess, dtype=float)[np.ix_(free, free)])
+    h = np.zeros(len(names))
+    h[free] = 0.1 / np.sqrt(np.diag(Ci))
     k = len(free)
     H = np.zeros((k, k))
     f0 = f(*p0)
-    for a, i in enumerate(free):
-        for c, j in enumerate(free):
-            if c < a:
-                continue
-            if i == j:
-                pp, pm = p0.copy(), p0.copy()
-                pp[i] += h[i]
-                pm[i] -= h[i]
-                H[a, a] = (f(*pp) - 2 * f0 + f(*pm)) / h[i] ** 2
-            else:
-                v = 0.0
-                for si, sj in ((1, 1), (1, -1), (-1, 1), (-1, -1)):
-                    q = p0.copy()
-                    q[i] += si * h[i]
-                    q[j] += sj * h[j]
-                    v += si * sj * f(*q)
-                H[a, c] = H[c, a] = v / (4 * h[i] * h[j])
-    f(*p0)
+    try:
+        for a, i in enumerate(free):
+            for c, j in enumerate(free):
+                if c < a:
+                    continue
+                if i == j:
+                    pp, pm = p0.copy(), p0.copy()
+                    pp[i] += h[i]
+                    pm[i] -= h[i]
+                    H[a, a] = (f(*pp) - 2 * f0 + f(*pm)) / h[i] ** 2
+                else:
+                    v = 0.0
+                    for si, sj in ((1, 1), (1, -1), (-1, 1), (-1, -1)):
+                        q = p0.copy()
+                        q[i] += si * h[i]
+                        q[j] += sj * h[j]
+                        v += si * sj * f(*q)
+                    H[a, c] = H[c, a] = v / (4 * h[i] * h[j])
+    finally:
+        f(*p0)
     C = np.zeros((len(names), len(names)))
     C[np.ix_(free, free)] = 2.0 * np.linalg.inv(H)
     return C
 
 
 def classify_cov(info):
-    """key for a failing uncertainty observable (errors / covariance / correlation / error band) — decided by the witness:
-    transformation = scaling, backend = scipy, the *values* and chi2 agreed, and a covariance matrix computed from kafe2's
-    own cost function of the very same fit with steps proportional to sigma agrees with the scaled base result."""
+    """Failing uncertainty observable (errors / covariance / correlation / error band).
+    KEY_ND_HESSIAN: transformation = scaling AND backend = scipy AND values, chi2 and cost agreed AND a covariance matrix
+    computed from the cost function of the very same transformed fit with steps proportional to sigma agrees with the scaled
+    base result (i.e. only the step sizes of the numerical Hessian depend on the units)."""
     if info["kind"] != "scaling" or info["minimizer"] != "scipy":
         return None
     try:
-        C = fd_cov(info["built"], info["sigma_t"])
+        exp = info["exp_cov"]
+        C = fd_cov(info["built"], exp)
+        nrm = np.sqrt(np.outer(np.diag(exp), np.diag(exp)))
+        nrm = np.where(nrm > 0, nrm, 1.0)
+        if np.all(np.isfinite(C)) and np.all(np.abs(C - exp) / nrm <= 5e-2):
+            return KEY_ND_HESSIAN
     except Exception:
         return None
-    exp = info["exp_cov"]
-    nrm = np.sqrt(np.outer(np.diag(exp), np.diag(exp)))
-    nrm = np.where(nrm > 0, nrm, 1.0)
-    if exp is not None and np.all(np.isfinite(C)) and np.all(np.abs(C - exp) / nrm <= 5e-2):
-        return KEY_ND_HESSIAN
+    return None
+
+
+def classify_errors(info, got_errors, got_cov, exp_cov, etol):
+    """Failing parameter_errors.
+    KEY_MIGRAD_ERR: backend = iminuit AND the covariance matrices of the two fits agree AND the reported errors of one of the two
+    fits are not the square roots of the diagonal of its own covariance matrix (the errors were cached before HESSE ran)."""
+    if info["minimizer"] == "iminuit" and got_cov is not None:
+        d = np.sqrt(np.abs(np.diag(exp_cov)))
+        nrm = np.where(np.outer(d, d) > 0, np.outer(d, d), 1.0)
+        cov_ok = bool(np.all(np.abs(got_cov - exp_cov) / nrm <= 2 * etol))
+        incons = 0.0
+        for e, C in ((got_errors, got_cov), (info["base_errors"], info["base_cov"])):
+            sd = np.sqrt(np.abs(np.diag(C)))
+            m = sd > 0
+            if m.any():
+                incons = max(incons, float(np.max(np.abs(np.asarray(e)[m] / sd[m] - 1.0))))
+        if cov_ok and incons > 0.5 * etol:
+            return KEY_MIGRAD_ERR
+    return classify_cov(info)
+
+
+def classify_optimum(info, tres, bres, to_t, to_b, shift, ctol):
+    """Failing parameter_values / goodness_of_fit / cost_function_value / chi2_probability.
+    KEY_SCIPY_MIN: transformation = scaling AND backend = scipy AND one of the two fits stopped short of the minimum of its
+    *own* cost function: the cost of the transformed fit at the (scaled) base optimum is lower than at its reported optimum
+    by more than the cost tolerance, or vice versa."""
+    if info["kind"] != "scaling" or info["minimizer"] != "scipy":
+        return None
+    try:
+        ft = info["built"].fit._fitter._fcn_wrapper
+        fb = info["base_built"].fit._fitter._fcn_wrapper
+        ct_at_exp = float(ft(*to_t(bres["values"])))
+        ft(*tres["values"])
+        cb_at_tr = float(fb(*to_b(tres["values"])))
+        fb(*bres["values"])
+        if np.isfinite(ct_at_exp) and ct_at_exp < tres["cost"] - ctol:
+            return KEY_SCIPY_MIN
+        if np.isfinite(cb_at_tr) and cb_at_tr < bres["cost"] - ctol:
+            return KEY_SCIPY_MIN
+    except Exception:
+        return None
     return None
 
 
 def classify_asym(info):
-    """scipy's generic profile root finding stops at |dx| < tolerance = 1e-6 in *absolute* parameter units: key only for the
-    scaling transformation on the scipy backend when a failing entry belongs to a parameter whose sigma is < 1e-3 in the units
-    of one of the two problems (i.e. xtol > 1e-3 sigma) and the symmetric errors agreed."""
+    """scipy's generic profile root finding stops at |dx| < tolerance = 1e-6 in *absolute* parameter units.
+    KEY_SCIPY_XTOL: transformation = scaling AND backend = scipy AND every failing entry belongs to a parameter whose sigma is
+    < 1e-3 in the units of one of the two problems (i.e. xtol > 1e-3 sigma) AND the symmetric errors agreed."""
     if info["kind"] != "scaling" or info["minimizer"] != "scipy":
         return None
     bad = info["bad_rows"]
-    if len(bad) and all(min(info["sigma_b"][i], info["sigma_t"][i]) < 1e-3 for i in bad):
+    if len(bad) and all(0 < min(info["sigma_b"][i], info["sigma_t"][i]) < 1e-3 for i in bad):
         return KEY_SCIPY_XTOL
     return None
 
@@ -696,7 +771,7 @@ def _permute_expected(base_names, tr_names, vec=None, mat=None):
     return np.asarray(mat)[np.ix_(idx, idx)]
 
 
-def compare_triple(ctx, case, vi, base, bres, sig_b, near_limit):
+def compare_triple(ctx, case, vi, base, bres, sig_b, guards):
     tkind = case["transform"]
     problem = case["base"]
     mini = problem["minimizer"]
@@ -704,33 +779,37 @@ def compare_triple(ctx, case, vi, base, bres, sig_b, near_limit):
     tproblem, tinfo = TRANSFORMS[tkind](problem, variant)
     s = tinfo.get("s", 1.0)
     tag = {"variant": vi, "transform": tkind, "minimizer": mini}
+    if tkind == "scaling":
+        tag["s"] = s
     try:
         tb = Built(tproblem, with_ref=False)
     except Exception:
         ctx.violation(None, "transformed.build.no-exception", dict(tag, traceback=fmt_exc()))
-        return False
+        return
     names_b, names_t = base.names, tb.names
-    ctx.check("parameter_names.same-set", sorted(names_b) == sorted(names_t), lambda: dict(tag, got=names_t, expected=names_b))
-    if sorted(names_b) != sorted(names_t):
-        return False
+    if not ctx.check("parameter_names.same-set", sorted(names_b) == sorted(names_t), lambda: dict(tag, got=names_t, expected=names_b)):
+        return
     if tkind == "par-perm":
         ctx.add_to_set("par-perm-order", "%s->%s" % (",".join(names_b), ",".join(names_t)))
     fac = np.array([unit_factor(n, s) for n in names_t])
+    fac_b = np.array([unit_factor(n, s) for n in names_b])
     N = base.n_data
     shift = 2.0 * N * np.log(s)
 
     def to_t(vec_b):
-        return _permute_expected(names_b, names_t, vec=vec_b) * fac
+        return _permute_expected(names_b, names_t, vec=vec_b) * (fac if np.ndim(vec_b) == 1 else fac[:, None])
+
+    def to_b(vec_t):
+        return _permute_expected(names_t, names_b, vec=vec_t) / fac_b
 
     def mat_to_t(mat_b):
         return _permute_expected(names_b, names_t, mat=mat_b) * np.outer(fac, fac)
 
-    # ---- initial step sizes
-    es_b = np.array(base.initial_steps, dtype=float)
+    # ---- initial step sizes (0.1 |default| of the transformed model, or the transformed explicit ones)
     es_t = np.array(tb.fit.parameter_errors, dtype=float)
-    ctx.close("initial_step_sizes", es_t, to_t(es_b), tol=Tol.custom("ULP4", 1e-12, 0.0), detail=tag)
+    ctx.close("initial_step_sizes", es_t, to_t(base.initial_steps), tol=Tol.custom("ULP4", 1e-12, 0.0), detail=tag)
 
-    # ---- before fitting: cost / gof / ndf / probability at common parameter points
+    # ---- before fitting: cost / chi2 / ndf / probability at common parameter points (the last one is the start point)
     tb.configure()
     ok = True
     for k, (pt, ref_b) in enumerate(zip(case["meta"]["cost_points"] + [problem["start"]], base.prefit)):
@@ -747,8 +826,7 @@ def compare_triple(ctx, case, vi, base, bres, sig_b, near_limit):
             if p_b is not None and p_t is not None:
                 ok &= ctx.close("prefit.chi2_probability", p_t, p_b, tol=Tol.custom("PROB", 1e-6, 1e-12), detail=tag)
     if not ok:
-        return True  # first divergence ends this triple
-    # (the last probe point is the start point)
+        return  # first divergence ends this triple
 
     # ---- fit the transformed problem
     ctx.op("do_fit")
@@ -757,18 +835,15 @@ def compare_triple(ctx, case, vi, base, bres, sig_b, near_limit):
             tb.fit.do_fit()
     except OpTimeout:
         ctx.violation(None, "transformed.do_fit.terminates", tag)
-        return True
+        return
     except Exception:
         ctx.violation(None, "transformed.do_fit.no-exception", dict(tag, traceback=fmt_exc()))
-        return True
-    band_x = base.band_x
-    if tkind == "point-perm":
-        band_x = list(band_x)
+        return
     try:
-        tres = read_results(tb, asym=False, band_x=band_x)
+        tres = read_results(tb, asym=False, band_x=None)
     except Exception:
         ctx.violation(None, "transformed.read.no-exception", dict(tag, traceback=fmt_exc()))
-        return True
+        return
 
     ptol, ctol = (1e-2, 1e-3) if mini == "iminuit" else (5e-2, 5e-3)
     etol = 2e-2
@@ -777,69 +852,98 @@ def compare_triple(ctx, case, vi, base, bres, sig_b, near_limit):
     sig_t = np.array([sig_b.get(n, 0.0) for n in names_t]) * fac
     sig_safe = np.where(sig_t > 0, sig_t, 1.0)
     wk = "%s|%s" % (tkind, mini)
+    info = {"kind": tkind, "minimizer": mini, "built": tb, "base_built": base}
+    cache = {}
 
     def worst(name, v):
         k = "%s|%s" % (name, wk)
         if np.isfinite(v):
             ctx.worst[k] = max(ctx.worst.get(k, 0.0), float(v))
 
-    # values
+    def key_opt():
+        if "o" not in cache:
+            cache["o"] = classify_optimum(info, tres, bres, to_t, to_b, shift, ctol)
+        return cache["o"]
+
+    # values (fixed parameters exactly)
     exp_v = to_t(bres["values"])
     dev = np.abs(tres["values"] - exp_v) / sig_safe
-    okv = ctx.check("parameter_values", bool(np.all(dev[free_t] <= ptol)), lambda: dict(tag, names=names_t, got=tres["values"], expected=exp_v, sigma_ref=sig_t, deviation_in_sigma=dev, tolerance_sigma=ptol, s=s))
+    dev = np.where(np.isnan(dev), np.inf, dev)
+    okv = ctx.check(
+        "parameter_values",
+        bool(np.all(dev[free_t] <= ptol)),
+        lambda: dict(tag, names=names_t, got=tres["values"], expected=exp_v, sigma_ref=sig_t, deviation_in_sigma=dev, tolerance_sigma=ptol),
+        key=key_opt,
+    )
     if okv and free_t:
         worst("dp_sigma", float(np.max(dev[free_t])))
     if fix_t:
         ctx.eq("fixed_untouched", tres["values"][fix_t], np.array([tproblem["fixed"][names_t[i]] for i in fix_t], dtype=float), detail=tag)
-    # chi2, cost, ndf, probability
-    okg = ctx.check("goodness_of_fit", tres["gof"] is not None and abs(tres["gof"] - bres["gof"]) <= ctol, lambda: dict(tag, got=tres["gof"], expected=bres["gof"], tolerance=ctol, s=s))
+    # chi2 is not the minimised function when V depends on the parameters: a shift of ptol sigma moves it in first order by
+    # ptol * sum_i |sigma_i d(ln det V)/dp_i| (yardstick from the reference, 0 for parameter-independent V)
+    gtol = ctol + ptol * guards["gof_sensitivity"]
+    okg = ctx.check(
+        "goodness_of_fit",
+        tres["gof"] is not None and abs(tres["gof"] - bres["gof"]) <= gtol,
+        lambda: dict(tag, got=tres["gof"], expected=bres["gof"], tolerance=gtol, tolerance_cost=ctol, first_order_sensitivity_per_sigma=guards["gof_sensitivity"]),
+        key=key_opt,
+    )
     if okg:
         worst("dchi2", abs(tres["gof"] - bres["gof"]))
-    okc = ctx.check("cost_function_value", abs(tres["cost"] - (bres["cost"] + shift)) <= ctol, lambda: dict(tag, got=tres["cost"], expected=bres["cost"] + shift, base=bres["cost"], shift_2N_ln_s=shift, tolerance=ctol))
+    okc = ctx.check(
+        "cost_function_value",
+        abs(tres["cost"] - (bres["cost"] + shift)) <= ctol,
+        lambda: dict(tag, got=tres["cost"], expected=bres["cost"] + shift, base=bres["cost"], shift_2N_ln_s=shift, tolerance=ctol),
+        key=key_opt,
+    )
     if okc:
         worst("dcost", abs(tres["cost"] - (bres["cost"] + shift)))
     ctx.eq("ndf", tres["ndf"], bres["ndf"], detail=tag)
     if bres["prob"] is not None and bres["ndf"] > 0:
         g = max(bres["gof"], 0.0)
-        ptl = abs(stats.chi2.sf(max(g - ctol, 0.0), bres["ndf"]) - stats.chi2.sf(g + ctol, bres["ndf"])) + 1e-9
-        ctx.check("chi2_probability", tres["prob"] is not None and abs(tres["prob"] - bres["prob"]) <= ptl, lambda: dict(tag, got=tres["prob"], expected=bres["prob"], tolerance=ptl))
+        ptl = abs(stats.chi2.sf(max(g - gtol, 0.0), bres["ndf"]) - stats.chi2.sf(g + gtol, bres["ndf"])) + 1e-9
+        ctx.check("chi2_probability", tres["prob"] is not None and abs(tres["prob"] - bres["prob"]) <= ptl, lambda: dict(tag, got=tres["prob"], expected=bres["prob"], tolerance=ptl), key=key_opt)
     if not (okv and okg and okc):
-        return True
+        return
 
-    # uncertainties
-    if bres["cov"] is None or not np.all(np.isfinite(bres["cov"])) or not np.all(np.isfinite(bres["errors"])) or np.any(bres["errors"][[base.names.index(names_t[i]) for i in free_t]] <= 0):
-        ctx.discard("base-covariance-not-available")
-        return True
-    if near_limit:
-        ctx.note("uncertainties-not-compared:parameter-within-3-sigma-of-a-limit")
-        return True
-    exp_e = to_t(bres["errors"])
+    # ---- uncertainties
+    if guards["skip_uncertainties"]:
+        ctx.note("uncertainties-not-compared:" + guards["skip_uncertainties"])
+        return
     exp_C = mat_to_t(bres["cov"])
-    info = {"kind": tkind, "minimizer": mini, "built": tb, "sigma_t": np.where(exp_e > 0, exp_e, sig_safe), "sigma_b": _permute_expected(names_b, names_t, vec=bres["errors"]), "exp_cov": exp_C}
-    cache = {}
+    exp_e = to_t(bres["errors"])
+    exp_sd = np.sqrt(np.abs(np.diag(exp_C)))
+    e_safe = np.where(exp_sd > 0, exp_sd, 1.0)
+    info.update(sigma_t=e_safe, sigma_b=_permute_expected(names_b, names_t, vec=np.sqrt(np.abs(np.diag(bres["cov"])))), exp_cov=exp_C, base_errors=bres["errors"], base_cov=bres["cov"])
 
     def key_cov():
-        if "k" not in cache:
-            cache["k"] = classify_cov(info)
-        return cache["k"]
+        if "c" not in cache:
+            cache["c"] = classify_cov(info)
+        return cache["c"]
 
-    e_safe = np.where(exp_e > 0, exp_e, 1.0)
-    with np.errstate(invalid="ignore"):
-        de = np.abs(tres["errors"] - exp_e) / e_safe
-    de = np.where(np.isnan(de), np.inf, de)
-    oke = ctx.check("parameter_errors", bool(np.all(de <= etol)), lambda: dict(tag, names=names_t, got=tres["errors"], expected=exp_e, relative_deviation=de, tolerance=etol, s=s), key=key_cov)
-    if oke:
-        worst("derr_rel", float(np.max(de)))
     if tres["cov"] is None:
         ctx.check("parameter_cov_mat", False, dict(tag, got=None), key=key_cov)
-        return True
+        return
     nrm = np.outer(e_safe, e_safe)
     with np.errstate(invalid="ignore"):
         dC = np.abs(tres["cov"] - exp_C) / nrm
     dC = np.where(np.isnan(dC), np.inf, dC)
-    okC = ctx.check("parameter_cov_mat", bool(np.all(dC <= etol)), lambda: dict(tag, names=names_t, got=tres["cov"], expected=exp_C, max_normalised_deviation=float(dC.max()), tolerance=etol, s=s), key=key_cov)
+    okC = ctx.check(
+        "parameter_cov_mat", bool(np.all(dC <= 2 * etol)), lambda: dict(tag, names=names_t, got=tres["cov"], expected=exp_C, max_normalised_deviation=float(dC.max()), tolerance=2 * etol), key=key_cov
+    )
     if okC:
         worst("dcov_norm", float(dC.max()))
+    with np.errstate(invalid="ignore"):
+        de = np.abs(tres["errors"] - exp_e) / np.where(exp_e > 0, exp_e, 1.0)
+    de = np.where(np.isnan(de), np.inf, de)
+    oke = ctx.check(
+        "parameter_errors",
+        bool(np.all(de <= etol)),
+        lambda: dict(tag, names=names_t, got=tres["errors"], expected=exp_e, relative_deviation=de, tolerance=etol, sqrt_diag_cov_got=np.sqrt(np.abs(np.diag(tres["cov"]))), sqrt_diag_cov_expected=exp_sd),
+        key=lambda: classify_errors(info, tres["errors"], tres["cov"], exp_C, etol),
+    )
+    if oke:
+        worst("derr_rel", float(np.max(de)))
     if bres["cor"] is not None:
         exp_R = _permute_expected(names_b, names_t, mat=bres["cor"])
         if tres["cor"] is None:
@@ -849,41 +953,54 @@ def compare_triple(ctx, case, vi, base, bres, sig_b, near_limit):
                 dR = np.abs(tres["cor"] - exp_R)
             dR = np.where(np.isnan(dR), np.inf, dR)
             ctx.check("parameter_cor_mat", bool(np.all(dR <= etol)), lambda: dict(tag, names=names_t, got=tres["cor"], expected=exp_R, tolerance=etol), key=key_cov)
-    for j, (bb, tbnd) in enumerate(zip(bres["bands"], tres["bands"])):
-        if bb is None or tbnd is None:
-            continue
-        exp_b = bb * s
-        okb = bool(np.all(np.abs(tbnd - exp_b) <= 1.5 * etol * np.abs(exp_b) + 1e-12 * s)) and bool(np.all(np.isfinite(tbnd)))
-        ctx.check("error_band", okb, lambda: dict(tag, member=j, got=tbnd, expected=exp_b, tolerance_rel=1.5 * etol), key=key_cov)
-    if not (oke and okC):
-        return True
+    if not okC:
+        return
+    # error band: sqrt(g^T C g), g = df/dp at the optimum
+    if any(bb is not None for bb in bres["bands"]):
+        try:
+            tbands = read_bands(tb, base.band_x, tres["cov"])
+        except Exception:
+            ctx.violation(key_cov(), "transformed.error_band.no-exception", dict(tag, traceback=fmt_exc()))
+            return
+        for j, (bb, tbnd) in enumerate(zip(bres["bands"], tbands)):
+            if bb is None or tbnd is None:
+                continue
+            exp_b = bb * s
+            okb = bool(np.all(np.isfinite(tbnd))) and bool(np.all(np.abs(tbnd - exp_b) <= 1.5 * etol * np.abs(exp_b) + 1e-12 * s))
+            ctx.check("error_band", okb, lambda: dict(tag, member=j, x=base.band_x[j], got=tbnd, expected=exp_b, tolerance_rel=1.5 * etol), key=key_cov)
+    if not oke:
+        return
 
-    # asymmetric errors (read last: the query itself may move the fit slightly, C08)
+    # ---- asymmetric errors (read last: the query itself may move the fit slightly, C08)
     if case.get("asym") and bres.get("asym") is not None:
         try:
             with time_limit(120):
                 ae = tb.fit.asymmetric_parameter_errors
         except OpTimeout:
             ctx.violation(None, "transformed.asymmetric_parameter_errors.terminates", tag)
-            return True
+            return
         except Exception:
-            ctx.violation(classify_asym(dict(info, bad_rows=list(free_t))), "transformed.asymmetric_parameter_errors.no-exception", dict(tag, traceback=fmt_exc(), s=s))
-            return True
+            ctx.violation(classify_asym(dict(info, bad_rows=list(free_t))), "transformed.asymmetric_parameter_errors.no-exception", dict(tag, traceback=fmt_exc()))
+            return
         if ae is None:
             ctx.check("asymmetric_parameter_errors", False, dict(tag, got=None, expected=bres["asym"]))
-            return True
+            return
         ae = np.array(ae, dtype=float)
-        exp_a = _permute_expected(names_b, names_t, vec=bres["asym"]) * fac[:, None]
+        exp_a = to_t(bres["asym"])
         with np.errstate(invalid="ignore"):
             da = np.abs(ae - exp_a) / e_safe[:, None]
         da = np.where(np.isnan(da), np.inf, da)
         atol = max(ptol, etol)
         bad_rows = [i for i in range(len(names_t)) if np.any(da[i] > atol)]
-        oka = ctx.check("asymmetric_parameter_errors", not bad_rows, lambda: dict(tag, names=names_t, got=ae, expected=exp_a, deviation_in_sigma=da, tolerance_sigma=atol, s=s), key=lambda: classify_asym(dict(info, bad_rows=bad_rows)))
+        oka = ctx.check(
+            "asymmetric_parameter_errors",
+            not bad_rows,
+            lambda: dict(tag, names=names_t, got=ae, expected=exp_a, deviation_in_sigma=da, tolerance_sigma=atol, sigma_transformed=e_safe),
+            key=lambda: classify_asym(dict(info, bad_rows=bad_rows)),
+        )
         if oka:
             worst("dasym_sigma", float(da.max()))
         ctx.stratum("asym", mini)
-    return True
 
 
 # ------------------------------------------------------------------ one case
@@ -952,6 +1069,24 @@ def run_case(ctx, case):
         ctx.discard("ill-posed-at-optimum")
         return False
     sig_b = yo["sigma"]
+    guards = {"skip_uncertainties": None, "gof_sensitivity": 0.0}
+    # first-order sensitivity of chi2 (= cost - ln det V) to the position of the optimum, per sigma (yardstick only)
+    pvec = np.array([pdo[n] for n in names], dtype=float)
+    for r in base.refs:
+        if not (r.has_x_source() or any(s_["reference"] == "model" and s_["enabled"] for s_ in r.sources)):
+            continue
+        for n in names:
+            if n in problem["fixed"] or n not in r.model.pnames:
+                continue
+            h = 1e-3 * sig_b[n]
+            lp, lm = [], []
+            for sign, acc in ((1.0, lp), (-1.0, lm)):
+                q = dict(pdo)
+                q[n] = pdo[n] + sign * h
+                acc.append(r.logdet(np.array([q[k] for k in r.model.pnames], dtype=float)))
+            d = (lp[0] - lm[0]) / (2 * h)
+            if np.isfinite(d):
+                guards["gof_sensitivity"] += abs(d) * sig_b[n]
     near_limit = False
     active = False
     for n, (lo, hi) in problem["limits"].items():
@@ -984,11 +1119,22 @@ def run_case(ctx, case):
         ctx.stratum("constraint-matrix")
     nfree = len(names) - len(problem["fixed"])
     nontrivial = nfree >= 2 or bool(subsets)
+    # when are the reported uncertainties comparable at the 2e-2 level?
+    free_i = [i for i, n in enumerate(names) if n not in problem["fixed"]]
+    if bres["cov"] is None or not np.all(np.isfinite(bres["cov"])) or not np.all(np.isfinite(bres["errors"])) or np.any(np.diag(bres["cov"])[free_i] <= 0):
+        guards["skip_uncertainties"] = "base-covariance-not-available"
+    elif near_limit:
+        guards["skip_uncertainties"] = "parameter-within-3-sigma-of-a-limit"
+    else:
+        sd = np.sqrt(np.diag(bres["cov"]))[free_i]
+        sr = np.array([sig_b[names[i]] for i in free_i])
+        if np.any(np.abs(sd / sr - 1.0) > 0.15):
+            guards["skip_uncertainties"] = "strongly-non-parabolic:sigma-differs-from-gauss-newton-sigma-by-more-than-15-percent"
     for vi in range(len(case["variants"])):
         ctx.op("triple")
         ctx.op("triple:%s" % tkind)
         n0 = sum(ctx._wit_per_key.values())
-        compare_triple(ctx, case, vi, base, bres, sig_b, near_limit)
+        compare_triple(ctx, case, vi, base, bres, sig_b, guards)
         if sum(ctx._wit_per_key.values()) != n0:
             break
     return nontrivial
